@@ -2408,17 +2408,21 @@ class op(object):
             not pwl_ineqs and len(lin_ineqs) <= 1 and \
             len(equalities) <= 1:
             v = variables[0]
+            mtype = {'dense': _isdmatrix, 'sparse': _isspmatrix}.get(format)
 
-            if lin_ineqs: G = lin_ineqs[0]._f._linear._coeff[v]
-            else: G = None
+            def inform(f):
+                # True if f = cf*v + d with the coefficient cf and the 
+                # constant d stored in full size, and cf of the 
+                # requested matrix type.
+                cf = f._linear._coeff.get(v)
+                return cf is not None and mtype(cf) and \
+                    cf.size == (len(f), len(v)) and \
+                    len(f._constant) == len(f)
 
-            if equalities: A = equalities[0]._f._linear._coeff[v]
-            else: A = None
-
-            if (format == 'dense' and (G is None or _isdmatrix(G)) and 
-                (A is None or _isdmatrix(A))) or \
-                (format == 'sparse' and (G is None or _isspmatrix(G)) 
-                and (A is None or _isspmatrix(A))):  
+            cf = objective._linear._coeff.get(v)
+            if mtype and cf is not None and cf.size == (1,len(v)) and \
+                not [i for i in lin_ineqs + equalities if 
+                not inform(i._f)]:
                 return None
 
 
@@ -2625,18 +2629,22 @@ class op(object):
         if not variables: 
             raise TypeError('lp must have at least one variable')
         x = variables[0]
-        c = lp1.objective._linear._coeff[x]
+        c = lp1.objective._linear._coeff.get(x, matrix(0.0, (1,len(x))))
         if _isspmatrix(c): c = matrix(c, tc='d')
 
         inequalities = lp1._inequalities
         if not inequalities:
             raise TypeError('lp must have at least one inequality')
-        G = inequalities[0]._f._linear._coeff[x]
+        zeros = {'sparse': lambda m: spmatrix(0.0, [], [], 
+            (m,len(x)))}.get(format, lambda m: matrix(0.0, (m,len(x))))
+        G = inequalities[0]._f._linear._coeff.get(x, 
+            zeros(len(inequalities[0])))
         h = -inequalities[0]._f._constant
 
         equalities = lp1._equalities
         if equalities:
-            A = equalities[0]._f._linear._coeff[x]
+            A = equalities[0]._f._linear._coeff.get(x,
+                zeros(len(equalities[0])))
             b = -equalities[0]._f._constant
         elif format == 'dense':
             A = matrix(0.0, (0,len(x)))
